@@ -410,6 +410,8 @@ class Rig:
             self.serial += 1
             when = BASE + op[2]
             m.sched.append([when, self.serial])
+            m.sched_src = getattr(m, "sched_src", {})
+            m.sched_src[self.serial] = op[1]
             m.ever_sched.append((when, self.serial))
             self.trig[("sched", op[1])](when)
         elif k == "sigint":
@@ -580,6 +582,13 @@ class Rig:
             if earlier:
                 return ("C08.scheduled.order", f"{what} returned {r!r} while scheduled events with smaller times are pending: "
                         f"{[(w - BASE, n) for w, n in earlier]}", {})
+            # "events from one trigger in trigger order": among events of the SAME trigger scheduled for the SAME time the one triggered
+            # first comes first (different times: time order; different triggers with equal times: any order)
+            src = getattr(m, "sched_src", {})
+            same = [x for x in m.sched if x[0] == mine[0][0] and x[1] < r.n and src.get(x[1]) == src.get(r.n)]
+            if same:
+                return ("C08.scheduled.trigger_order", f"{what} returned {r!r} while events of the same trigger scheduled earlier for the same time "
+                        f"are pending: {[(w - BASE, n) for w, n in same]}", {})
             m.sched.remove(mine[0])
             m.done.add(r.n)
             return None
